@@ -1,7 +1,7 @@
 /-
-  Model of pyparsing/core.py `_trim_arity` (core.py:257-318), of the action loop of
-  `ParserElement._parseNoCache` (core.py:864-904), of `condition_as_parse_action` (core.py:321-346)
-  and of the exception handling at the end of `parse_string` (core.py:1211-1225).
+  Model of pyparsing/core.py `_trim_arity` (core.py:257-324), of the action loop of
+  `ParserElement._parseNoCache` (core.py:870-910), of `condition_as_parse_action` (core.py:327-352)
+  and of the exception handling at the end of `parse_string` (core.py:1219-1233).
 
   The user's callable is abstract:
     * `accepts k`  : do `k` positional arguments bind to its signature?  If not, CPython raises a
@@ -54,7 +54,7 @@ def callFn {σ β} (f : Callable σ β) (s : σ) (k : Nat) : BodyRes β × σ ×
 /-- facts of the live source the wrapper depends on -/
 structure Cfg where
   synth : Frame      -- `pa_call_line_synth` = (file, line of extract_stack + LINE_DIFF)   core.py:274-275
-  callSite : Frame   -- (file, line) of `ret = func(*args[limit:])` inside `wrapper`       core.py:283
+  callSite : Frame   -- (file, line) of `ret = func(*args[limit:])` inside `wrapper`       core.py:289
   maxLimit : Nat     -- `max_limit=3`                                                      core.py:257
   deriving Repr
 
@@ -70,10 +70,10 @@ def WState.fresh : WState := ⟨false, 0⟩
 inductive WOut (β : Type) where
   | ret (v : β)
   | raise (e : Exc)      -- the callable's exception object itself, re-raised / passing through
-  | wrappedIndex         -- `_ParseActionIndexError(msg, ie)`                                core.py:305-309
+  | wrappedIndex         -- `_ParseActionIndexError(msg, ie)`                                core.py:311-315
   deriving Repr, Inhabited
 
-/-- core.py:291-296
+/-- core.py:297-302
     `frames = traceback.extract_tb(tb, limit=2); frame_summary = frames[-1];`
     `trim_arity_type_error = [frame_summary[:2]][-1][:2] == pa_call_line_synth`.
     The traceback of an exception caught in `wrapper` starts with `wrapper`'s own frame, positioned
@@ -89,33 +89,35 @@ structure WRes (σ β : Type) where
   cs : σ
   evs : List Ev
 
-/-- the `while 1:` loop of `wrapper` (core.py:281-309), entered with `found_arity == False`.
+/-- the `while 1:` loop of `wrapper` (core.py:287-315), entered with `found_arity == False`.
     `n` = number of arguments `wrapper` was called with; `args[limit:]` has `n - limit` elements
     (Python slicing: empty when `limit > n`). -/
 def probeLoop {σ β} (cfg : Cfg) (f : Callable σ β) (n : Nat) (limit : Nat) (s : σ) (evs : List Ev) :
     WRes σ β :=
   match callFn f s (n - limit) with
   | (.ret v, s', ev) =>
-      -- ret = func(*args[limit:]); found_arity = True; return ret           core.py:283-285
+      -- ret = func(*args[limit:]); found_arity = True; return ret           core.py:289-291
       ⟨.ret v, ⟨true, limit⟩, s', evs ++ [ev]⟩
   | (.raise .typeError fr, s', ev) =>
-      -- except TypeError: (found_arity is False here)                          core.py:286-304
+      -- except TypeError: (found_arity is False here)                          core.py:292-310
       if isArityError cfg fr && decide (limit < cfg.maxLimit) then
         probeLoop cfg f n (limit + 1) s' (evs ++ [ev])
       else ⟨.raise .typeError, ⟨false, limit⟩, s', evs ++ [ev]⟩
   | (.raise .indexError _, s', ev) =>
-      -- except IndexError as ie: raise _ParseActionIndexError(...)            core.py:305-309
+      -- except IndexError as ie: raise _ParseActionIndexError(...)            core.py:311-315
       ⟨.wrappedIndex, ⟨false, limit⟩, s', evs ++ [ev]⟩
   | (.raise e _, s', ev) => ⟨.raise e, ⟨false, limit⟩, s', evs ++ [ev]⟩
 termination_by cfg.maxLimit - limit
 decreasing_by simp_all; omega
 
-/-- one invocation `wrapper(*args)` with `len(args) = n` (core.py:277-309) -/
+/-- one invocation `wrapper(*args)` with `len(args) = n` (core.py:277-315) -/
 def wrapper {σ β} (cfg : Cfg) (f : Callable σ β) (st : WState) (s : σ) (n : Nat) : WRes σ β :=
   if st.found then
-    -- if found_arity: return func(*args[limit:])     (no try/except around it)   core.py:279-280
+    -- if found_arity: try: return func(*args[limit:])
+    --                 except IndexError as ie: raise _ParseActionIndexError(...)        core.py:279-287
     match callFn f s (n - st.limit) with
     | (.ret v, s', ev) => ⟨.ret v, st, s', [ev]⟩
+    | (.raise .indexError _, s', ev) => ⟨.wrappedIndex, st, s', [ev]⟩
     | (.raise e _, s', ev) => ⟨.raise e, st, s', [ev]⟩
   else probeLoop cfg f n st.limit s []
 
@@ -143,7 +145,7 @@ inductive ElemOut where
   | escapesWrapped         -- _ParseActionIndexError in flight
   deriving DecidableEq, Repr, Inhabited
 
-/-- core.py:890-904, one iteration of `for fn in self.parseAction` -/
+/-- core.py:896-910, one iteration of `for fn in self.parseAction` -/
 def actionStep (cur : Toks) : WOut RetVal → ElemOut
   | .ret .none => .ok cur                       -- `tokens is not None` fails: keep
   | .ret .same => .ok cur                       -- `tokens is not ret_tokens` fails: keep
@@ -154,7 +156,7 @@ def actionStep (cur : Toks) : WOut RetVal → ElemOut
   | .raise e => .escapes e
   | .wrappedIndex => .escapesWrapped            -- not an IndexError subclass: passes through
 
-/-- `condition_as_parse_action` (core.py:337-346): `pa` calls the trimmed `fn`; `pa` itself is appended
+/-- `condition_as_parse_action` (core.py:343-352): `pa` calls the trimmed `fn`; `pa` itself is appended
     to `parseAction` without a second `_trim_arity`.  `truthy` = `bool(fn(s,l,t))`. -/
 def conditionStep (cur : Toks) (fatal : Bool) : WOut Bool → ElemOut
   | .ret true => .ok cur                                        -- pa returns None
@@ -171,7 +173,7 @@ inductive TopOut where
   | raises (e : Exc)
   deriving DecidableEq, Repr, Inhabited
 
-/-- core.py:1211-1225 -/
+/-- core.py:1219-1233 -/
 def parseStringOut : ElemOut → TopOut
   | .ok t => .returns t
   | .parseFail => .raises .parseExc          -- except ParseBaseException: raise exc.with_traceback(None)
@@ -179,7 +181,7 @@ def parseStringOut : ElemOut → TopOut
   | .escapes e => .raises e                   -- no handler
   | .escapesWrapped => .raises .indexError    -- except _ParseActionIndexError as pa_exc: raise pa_exc.exc
 
-/-- run the actions of one element in order (core.py:890: `for fn in self.parseAction`), each with its own
+/-- run the actions of one element in order (core.py:896: `for fn in self.parseAction`), each with its own
     wrapper state; stops at the first exception.  `acts` pairs a callable with its wrapper state. -/
 def runActions {σ} (cfg : Cfg) (n : Nat) :
     List (Callable σ RetVal × WState × σ) → Toks → ElemOut × List (WState × σ) × List (List Ev)
